@@ -238,7 +238,10 @@ impl<T> Signal<T> {
 
     /// Returns true if signal is terminated
     pub(crate) fn is_terminated(&self) -> bool {
-        self.state.load(Ordering::Relaxed) == TERMINATED
+        // Acquire: the caller frees the signal right after seeing TERMINATED,
+        // this has to be ordered after everything the terminating side did
+        // with the signal before its final (release) state change.
+        self.state.load(Ordering::Acquire) == TERMINATED
     }
 
     /// Reads kanal ptr and returns its value
